@@ -120,11 +120,11 @@ def _check_graph(case, A, prefix=""):
     ctx = prefix + "A=%s" % A.tolist()
     what = case.get("what", ["basic", "reach", "paths", "comp", "sep"])
     nodes = case.get("nodes", list(range(p)))
-    from props.gcommon import npint
+    from props.gcommon import npint, npints
     salt = int(np.count_nonzero(A)) + p
 
-    def ni(v, extra=0):                   # a node index as callers have it: int, or np.int64 / np.int32 out of np.where
-        return npint(v, salt + 5 * v + extra)
+    def ni(v, extra=0):                   # a node index as callers have it: int, or a numpy integer (np.where, np.argmax ...)
+        return npint(v, salt + 5 * v + extra, narrow=True)
 
     if "basic" in what:
         for i in nodes:
@@ -182,7 +182,8 @@ def _check_graph(case, A, prefix=""):
     if "sep" in what:
         for (Sset, Aset, Bset) in _triples(case, p):
             Sset, Aset, Bset = set(Sset), set(Aset), set(Bset)
-            o = lib(utils.separates, {ni(v, 1) for v in Sset}, {ni(v, 2) for v in Aset}, {ni(v, 3) for v in Bset}, A)
+            o = lib(utils.separates, npints(set(Sset), salt + len(Sset), True), npints(set(Aset), salt + len(Aset) + 1, True),
+                    npints(set(Bset), salt + 2 * len(Bset) + 2, True), A)       # sets or frozensets of ints / numpy ints
             if (Sset & Aset) or (Sset & Bset) or (Aset & Bset):
                 must_raise(o, ValueError, "separates(overlapping sets)")
                 lab.append("sep_overlap")
